@@ -274,11 +274,39 @@ def _util(sf, op):
     return outcome(enc)
 
 
+class _OpTimeout(BaseException):
+    pass
+
+
+def _on_alarm(signum, frame):
+    raise _OpTimeout()
+
+
+OP_TIMEOUT_S = 25      # a call that does not return is recorded as ('err', 'Hang') - data for the oracle
+
+
 def execute(sf, ops, passive):
+    import signal
     warnings.simplefilter("ignore")
+    signal.signal(signal.SIGALRM, _on_alarm)
     H = {}
     log = []
     for pos, op in enumerate(ops):
+        try:
+            signal.alarm(OP_TIMEOUT_S)
+            rec = _execute_one(sf, op, pos, H, passive)
+        except _OpTimeout:
+            rec = {"r": ("err", "Hang", "call did not return within %d s" % OP_TIMEOUT_S)}
+            if passive:
+                rec["p"] = (("err", "Hang"), ())
+        finally:
+            signal.alarm(0)
+        log.append(rec)
+    return log
+
+
+def _execute_one(sf, op, pos, H, passive):
+    if True:
         idx = op.get("id", pos)
         k = op["op"]
         rec = {}
@@ -339,8 +367,7 @@ def execute(sf, ops, passive):
             raise ValueError("unknown op %r" % (k,))
         if passive:
             rec["p"] = _passive(sf)
-        log.append(rec)
-    return log
+        return rec
 
 
 def pristine_presets(sf):
